@@ -1170,6 +1170,13 @@ class FxBuilder(Builder):
             # a call through a function pointer or closure value: the callee value is the first argument
             args = (self.ev_operand(fr, f["ind"]),) + args
         base = self.facts.fns[f["inst"]].def_path if "inst" in f else f.get("base")
+        fn_target = None
+        if name == "<indirect>" and args and args[0][0] == "fn" and args[0][1] in self.facts.fns:
+            # a call through a function pointer whose value is a known function of the crate: a direct call
+            fn_target = args[0][1]
+            callee_fn = self.facts.fns[fn_target]
+            name = base = callee_fn.def_path
+            args = args[1:]
         if t["t"] is None:
             nodes.append(("panic", name, args, site))
             return None
@@ -1196,6 +1203,16 @@ class FxBuilder(Builder):
                 newv = self.simp(norm_bin(opn, cur, args[1]))
                 self.store(place, newv, site, nodes)
                 veq = ("zst", "()")
+        if veq is None and base and len(args) >= 1 and args[0][0] == "ref" and (
+                (base.startswith("core::option::Option::<") and base.split("::")[-1] == "take" and len(args) == 1)
+                or (base.startswith("core::mem::replace") and len(args) == 2)):
+            # `place.take()` / `mem::replace(&mut place, v)`: the old value is the result, the new one is stored
+            place = args[0][1]
+            if is_memory_place(place):
+                cur = self.load(place)
+                newv = args[1] if len(args) == 2 else ("agg", "core::option::Option", "None", ())
+                self.store(place, newv, site, nodes)
+                veq = cur
         if veq is None and base and "IntoIterator for [" in base and base.endswith("into_iter") and args \
                 and args[0][0] == "agg" and args[0][1] == "array":
             veq = ("arrayiter", args[0][3], 0)
@@ -1212,10 +1229,12 @@ class FxBuilder(Builder):
         if veq is not None:
             ret = veq
             spliced = True
-        target = f.get("inst") or (f.get("via") if "ext" in f else None)
+        target = fn_target or f.get("inst") or (f.get("via") if "ext" in f else None)
         if not spliced and target and fr.depth < self.max_depth:
             callee = self.facts.fns[target]
-            if self.inline_pred(callee):
+            # a crate function given a known function as an argument is specialised (spliced) so the call through it resolves
+            fnarg = "inst" in f and any(a[0] == "fn" and a[1] in self.facts.fns for a in args)
+            if fnarg or self.inline_pred(callee):
                 sub, ret = self._subtree(callee, args, fr.depth + 1)
                 if ret is None:
                     ret = ("callret", name, args)
